@@ -268,23 +268,6 @@ Section MP.
       split; [exact I0|]. split; [exact HI1|]. split; [exact I2|]. split; [exact I3|]. split; [exact I4|].
       split; [exact I5|]. split; [exact S1|]. split; [exact P7|]. split; [exact B1 | exact B1lw].
   Qed.
-  (* ---- the discipline of the claimants and consumers ---- *)
-  (* counts >= 1, no claim that would block, every publish is of an outstanding claim (ANY of them: publishes may
-     complete in a different order than the claims), consumers never pass the cursor *)
-  Fixpoint mp_wf (s : mp) (out : list (N * N)) (l : list sop) : bool :=
-    match l with
-    | [] => true
-    | o :: r =>
-        let '(s', x) := mp_step s o in
-        match o, x with
-        | SNext c, RClaim a b => (1 <=? c) && mp_wf s' (out ++ [(a, b)]) r
-        | SPublish lo hi, _ =>
-            match remove_claim lo hi out with Some out' => mp_wf s' out' r | None => false end
-        | SGate _ v, _ => (v <=? mp_cursor s) && mp_wf s' out r
-        | _, _ => false
-        end
-    end.
-
   Definition mp_rel (s : mp) (c : cst) (out : list (N * N)) : Prop :=
     c_out c = out /\ c_cur c = mp_cursor s /\ c_last c = (if mp_high s =? 0 then None else Some (mp_high s)).
 
@@ -331,10 +314,14 @@ Section MP.
       cbn [check check_step]. rewrite Hout. cbn [take_claim]. rewrite Erm.
       rewrite Hcur. replace (mp_cursor s' <? mp_cursor s) with false by lia.
       replace (bound out' (c_last c) <? mp_cursor s') with false by lia.
-      destruct (match out' with [] => mp_cursor s' <? bound out' (c_last c) | _ :: _ => false end); [right; reflexivity|].
-      cbn [N.eqb].
-      apply (IH s' _ out'); [exact HI' | | exact Hwf].
-      split; [reflexivity|]. split; [reflexivity|]. cbn [c_last]. rewrite Hhigh. exact Hlast.
+      assert (HIH : check false (mkC out' (c_last c) (mp_cursor s')) r (mp_run s' r) = 0 \/
+                    check false (mkC out' (c_last c) (mp_cursor s')) r (mp_run s' r) = 5).
+      { apply (IH s' _ out'); [exact HI' | | exact Hwf].
+        split; [reflexivity|]. split; [reflexivity|]. cbn [c_last]. rewrite Hhigh. exact Hlast. }
+      destruct (match out' with [] => mp_cursor s' <? bound out' (c_last c) | _ :: _ => false end).
+      + (* verdict 5 here: the examination goes on, the whole history ends with 5 *)
+        cbn [N.eqb Pos.eqb]. cbv zeta. destruct HIH as [E|E]; rewrite E; right; reflexivity.
+      + cbn [N.eqb]. exact HIH.
     - (* gate *)
       apply andb_true_iff in Hwf. destruct Hwf as [Hv Hwf]. apply N.leb_le in Hv.
       pose proof (mI_gate _ _ i v HI Hv) as HI'. rewrite Est in HI'. cbn [fst] in HI'.
